@@ -147,6 +147,24 @@ func run(c *ev.Ctx) {
 	// list and by name, or sets, shortcuts with rules, allOf, additionalProperties, item counts), alone,
 	// as a property next to another one, optional, inside an array
 	c16.AstFamily(func(cs sc.Case) { each("ast", cs) })
+	// type shortcuts that carry WRITTEN rules next to the ones the library synthesises for them:
+	// type: "mixed" (what the library itself writes for @A | @B), nullable, optional, alone and together
+	{
+		tdecl := func() []sc.TypeDecl {
+			return []sc.TypeDecl{{Name: "@A", Body: gen.Int("1")}, {Name: "@B", Body: gen.Str(`"s"`)}, {Name: "@C", Body: gen.Obj(gen.P("k", gen.Int("1")))}}
+		}
+		mixed := gen.R("type", `"mixed"`)
+		for _, names := range [][]string{{"@A", "@B"}, {"@B", "@A"}, {"@C", "@A", "@B"}, {"@A"}} {
+			for _, rules := range [][]gen.Rule{{mixed}, {mixed, gen.R("nullable", "true")}, {gen.R("nullable", "true"), mixed}, {gen.R("nullable", "true")}, {gen.R("nullable", "false"), mixed}} {
+				ref := gen.Ref(names...).With(rules...)
+				each("shortcut-rules", sc.Case{Root: ref.Clone(), Types: tdecl()})
+				each("shortcut-rules", sc.Case{Root: gen.Obj(gen.P("x", ref.Clone())), Types: tdecl()})
+				each("shortcut-rules", sc.Case{Root: gen.Obj(gen.P("x", ref.Clone().With(gen.R("optional", "true"))), gen.P("y", gen.Int("1"))), Types: tdecl()})
+				each("shortcut-rules", sc.Case{Root: gen.Arr(ref.Clone()), Types: tdecl()})
+				each("shortcut-rules", sc.Case{Root: gen.Obj(gen.P("t", gen.Ref("@T"))), Types: append(tdecl(), sc.TypeDecl{Name: "@T", Body: ref.Clone()})})
+			}
+		}
+	}
 	// heirs that share an inherited node which refers back to them: @h1 and @h2 extend @base (or @h2
 	// extends @h1), and a node of @base - a nested object, an array, the body itself - holds optional
 	// references to the heirs and to the base; the inherited node is ONE object living in every heir
